@@ -3,6 +3,7 @@ import Abmarl.Spec.Pacman
 import Abmarl.Lemmas.Pacman
 import Abmarl.Lemmas.PacmanFloat
 import Abmarl.Lemmas.PacmanObs
+import Abmarl.Lemmas.PacmanStep
 /-!
 # `PacmanSim` / `PacmanSimSimple` (`abmarl/examples/sim/pacman.py`): what is proved
 
@@ -536,6 +537,28 @@ theorem pacman_simIface_WInvFloat (cfg : PM.Cfg) (w0 : World) (n : Nat) (hcfg : 
     split <;> simp_all
 
 
+/-! ## C02 / C03: a step that must not raise -/
+
+/-- **a `step` from a `PM.stepPre` state returns and leaves the whole invariant.**  `PM.stepPre cfg w r acts` is the explicit
+decidable hypothesis of the judge: `w` satisfies `WInv`, pacman is alive, everybody but pacman and the food is alive, the
+documented agent mix `PM.cfgWF`, the usable teleport cells `PM.teleSafe`, the action dict holds points of `Discrete(5)` for
+pacman and for some of the other learning agents (distinct keys), every learning agent has a reward entry.  Then, for EVERY
+such configuration (either class), world, reward dict, action dict, tape and `step_count`: `step` does not raise, the world
+it leaves satisfies `WInv` again — although in between it does not: a pacman eaten in the first overlap loop of `PacmanSim`
+stays in its cell, dead, while the baddies move and until the last statement takes it out —, and `teleSafe` still holds (so
+the next step from it is covered too, as long as pacman lives). -/
+theorem pacman_step_keeps_WInv (cfg : PM.Cfg) (s : PM.St) (r : Ex.Ledger) (acts : List (Aid × Int))
+    (hr : s.ex.rewards = some r) (hpre : PM.stepPre cfg s.ex.w r acts = true) :
+    (PM.step cfg s acts).2 = none ∧ (PM.step cfg s acts).1.ex.w.WInv = true ∧
+    PM.teleSafe cfg (PM.step cfg s acts).1.ex.w = true :=
+  PM.step_of_stepPre cfg s r acts hr hpre
+
+/-- **C02: every action drawn from the declared action spaces is processed without error** — `pacman_step_keeps_WInv`, the
+clause the judge `PM.specPM` uses for a step that raised -/
+theorem pacman_step_noRaise (cfg : PM.Cfg) (s : PM.St) (r : Ex.Ledger) (acts : List (Aid × Int))
+    (hr : s.ex.rewards = some r) (hpre : PM.stepPre cfg s.ex.w r acts = true) : (PM.step cfg s acts).2 = none :=
+  (pacman_step_keeps_WInv cfg s r acts hr hpre).1
+
 /-! ## Stated, not proved (judged at run time by `PM.specPM` on every call of the streams)
 
 ```
@@ -703,6 +726,47 @@ example :
       · trivial
       · trivial)
     (by decide +kernel) (by decide +kernel) [.absolute] rfl 0 (by decide) (by decide +kernel) []
+
+/-- `pacman_step_keeps_WInv` is not vacuous: after `reset` on the 21-column world the teleporting step satisfies `stepPre`
+(`PacmanSim`) -/
+example :
+    let s := (PM.runOps (exPMCfg false) { ex := { w := exPMWorld [(1, [3, 4]), (4, [1, 3, 4]), (3, [1, 4])] 21 (9, 1) (0, 5) } }
+      [exPMReset]).2
+    PM.stepPre (exPMCfg false) s.ex.w [(0, 0), (1, 0)] [(0, 1), (1, 0)] = true ∧ s.ex.rewards = some [(0, 0), (1, 0)] ∧
+    (PM.step (exPMCfg false) s [(0, 1), (1, 0)]).2 = none := by
+  intro s
+  have h1 : PM.stepPre (exPMCfg false) s.ex.w [(0, 0), (1, 0)] [(0, 1), (1, 0)] = true := by decide +kernel
+  have h2 : s.ex.rewards = some [(0, 0), (1, 0)] := by decide +kernel
+  exact ⟨h1, h2, pacman_step_noRaise (exPMCfg false) s _ _ h2 h1⟩
+
+/-- a `PacmanSimSimple` world: 10×19, pacman (0) at (9,1), `baddie_0 … baddie_4` (1…5) in row 0, a piece of food (6) on (9,18) -/
+def exPMWorldS : World :=
+  let baddie (c : Int) : AgentCfg :=
+    { enc := 4, initPos := some (0, c), initHealth := some 1, moving := true, moveRange := 1, hasOrient := true,
+      initOrient := some 1, observing := true, viewRange := 0 }
+  { rows := 10, cols := 19, overlap := [(1, [3, 4]), (4, [1, 3, 4]), (3, [1, 4])], cells := List.replicate 190 [],
+    cfg := [{ enc := 1, initPos := some (9, 1), initHealth := some 1, moving := true, moveRange := 1, hasOrient := true,
+              initOrient := some 1, observing := true, viewRange := 1 },
+            baddie 2, baddie 4, baddie 6, baddie 8, baddie 10, { enc := 3, initPos := some (9, 18), initHealth := some 1 }],
+    st := [{}, {}, {}, {}, {}, {}, {}] }
+
+def exPMCfgS : PM.Cfg :=
+  { simple := true, learning := [true, true, true, true, true, true, false], comps := [.health, .orient, .position .position {}],
+    observers := some [.absolute], pacman := 0, food := [6], baddies := [1, 2, 3, 4, 5], scheme := { kill := none },
+    named := [some 1, some 2, some 3, some 4, some 5] }
+
+/-- … and for `PacmanSimSimple`: pacman walks onto (9,0), is teleported to (9,18) and eats the food there, then the five
+scripted baddies move; `stepPre` holds, so the step returns and leaves `WInv` by the theorem -/
+example :
+    let s := (PM.runOps exPMCfgS { ex := { w := exPMWorldS } } [exPMReset]).2
+    s.ex.rewards = some [(0, 0), (1, 0), (2, 0), (3, 0), (4, 0), (5, 0)] ∧
+    PM.stepPre exPMCfgS s.ex.w [(0, 0), (1, 0), (2, 0), (3, 0), (4, 0), (5, 0)] [(0, 1)] = true ∧
+    ((PM.step exPMCfgS s [(0, 1)]).1.ex.w.stOf 0).pos = (9, 18) ∧ ((PM.step exPMCfgS s [(0, 1)]).1.ex.w.stOf 6).active = false ∧
+    (PM.step exPMCfgS s [(0, 1)]).1.ex.w.WInv = true := by
+  intro s
+  have h2 : s.ex.rewards = some [(0, 0), (1, 0), (2, 0), (3, 0), (4, 0), (5, 0)] := by decide +kernel
+  have h1 : PM.stepPre exPMCfgS s.ex.w [(0, 0), (1, 0), (2, 0), (3, 0), (4, 0), (5, 0)] [(0, 1)] = true := by decide +kernel
+  exact ⟨h2, h1, by decide +kernel, by decide +kernel, (pacman_step_keeps_WInv exPMCfgS s _ _ h2 h1).2.1⟩
 
 /-- the manager theorems are inhabited: an all-step run over the 21-column world -/
 example : specC01 .allStep 3 (exPMCfg false).isLearning false
